@@ -196,15 +196,31 @@ def rangeOkAt (lo : Float) (t : DTables) (bps : List Nat) : Bool :=
   (rescForward m.p m.e0 (mkSites m.es bps)).scales.all (fun c => c ≥ lo)
 def rangeOk (t : DTables) (bps : List Nat) : Bool := rangeOkAt 1e-250 t bps
 
-/-- verdict on a log-likelihood value answered by the implementation for tables `t` -/
-def llCheck (t : DTables) (bps : List Nat) (x : Float) : String :=
+/-- some emission lies in (0, 1e-100): the regime in which the rescaled classes leave the double range -/
+def DTables.extreme (t : DTables) : Bool := t.E.any (fun x => x > 0.0 && x < 1e-100)
+
+/-- the rescaled recursion lost weight to the double range: a scale factor of the (bit-identical) Float run is
+below 1e-250, or a normalised forward entry is exactly 0 (a state of relative weight < 1e-308 that a zero of the
+transition matrix never refills) -/
+def underflowed (t : DTables) (bps : List Nat) : Bool :=
+  let m := t.model
+  let fw := rescForward m.p m.e0 (mkSites m.es bps)
+  t.extreme && (fw.scales.any (fun c => !(c ≥ 1e-250)) || fw.lik.any (fun r => r.any (· == 0.0)))
+
+/-- verdict on a log-likelihood value answered by the implementation for tables `t`; `logClass`: the answer comes
+from the log-sum class (no double-range excuse).  A wrong answer of the rescaled / low-memory class is attributed
+to the recorded finding C13-rescaled-underflow only in the regime `underflowed`. -/
+def llCheck (t : DTables) (bps : List Nat) (x : Float) (logClass : Bool := false) : String :=
   if !t.nonneg then "-" else
   match exactLik t bps with
   | none => "-"
   | some q =>
     if q == 0 then (if x == -(1.0 / 0.0) then "ok" else "FAIL:path_sum_zero")
-    else if !rangeOk t bps then "-"
-    else if close x (ratLog q) then "ok" else "FAIL:path_sum"
+    else if close x (ratLog q) then "ok"
+    else if !logClass && underflowed t bps then "FAIL:rescaled_underflow"
+    else "FAIL:path_sum"
+
+def Obj.isLog (o : Obj) : Bool := match o.core with | .log _ => true | _ => false
 
 def isExc (l : List String) : Bool := match l with | [a] => a.startsWith "exc:" | _ => false
 
@@ -238,7 +254,7 @@ def llVerdict (o : Obj) (impl : Option (List String)) : String :=
     | [a] =>
       match implFloat? a with
       | none => "FAIL:parse"
-      | some x => both (if o.stale then "-" else llCheck o.tab o.bps x) (histCheck o ans (specOf o .logLik))
+      | some x => both (if o.stale then "-" else llCheck o.tab o.bps x o.isLog) (histCheck o ans (specOf o .logLik))
     | _ => "FAIL:parse"
 
 /-- tolerance on a posterior row sum: 1e-9, widened for the log-space class whose exponent
@@ -254,12 +270,13 @@ def postJudge (o : Obj) (m : List (List Float)) (rows : Option (List Nat)) : Str
       if o.stale then "-" else
       if !t.nonneg then "-" else
       if !validBreaks t.T o.bps then "-" else   -- unreachable: setBreakPoints refuses such vectors
-      -- double range: with emissions below 1e-100 forward entries underflow to 0 while backward entries
-      -- overflow, and the product is NaN; rounding/overflow is outside the exact-arithmetic model
-      if t.E.any (fun x => x > 0.0 && x < 1e-100) && m.any (fun r => r.any (fun x => x.isNaN || x.isInf)) then "-" else
       match exactLik t o.bps with
       | some q =>
         if q == 0 then "-" else
+        -- double range of the rescaled class (recorded finding C13-rescaled-underflow): with emissions below 1e-100
+        -- forward entries underflow to 0 while backward entries overflow, and the product is NaN / wrong
+        let bad := !(m.all (fun r => r.all (fun x => x ≥ 0.0) && sumsToOne o.logLik r))
+        if bad && !o.isLog && t.extreme then "FAIL:rescaled_underflow" else
         if !(m.all (fun r => r.all (fun x => x ≥ 0.0) && sumsToOne o.logLik r)) then "FAIL:posterior_prob" else
         match exactPost t o.bps with
         | none => "ok"
@@ -267,13 +284,14 @@ def postJudge (o : Obj) (m : List (List Float)) (rows : Option (List Nat)) : Str
           let ex' := match rows with | none => ex | some is => is.filterMap (fun i => ex[i]?)
           if ex'.length != m.length then "FAIL:parse" else
           if (ex'.zip m).all (fun (er, r) => (er.zip r).all (fun (q, x) => Float.abs (x - ratToFloat q) ≤ 1e-9)) then "ok"
+          else if !o.isLog && underflowed t o.bps then "FAIL:rescaled_underflow"
           else "FAIL:posterior_marginal"
       | none =>
         -- too long for the exact reference: normalisation only; data of probability zero (log-likelihood -inf:
         -- some scale factor is 0) have no posterior
         if !o.logLik.isFinite then "-" else
         if m.all (fun r => r.all (fun x => x ≥ 0.0) && sumsToOne o.logLik r) then "ok"
-        else if m.any (fun r => r.any Float.isNaN) then "-"   -- likelihood underflowed to 0: posterior undefined
+        else if !o.isLog && t.extreme then "FAIL:rescaled_underflow"
         else "FAIL:posterior_prob"
 
 def postVerdict (o : Obj) (impl : Option (List String)) (rows : Option (List Nat)) : String :=
@@ -315,7 +333,6 @@ def siteVerdict (o : Obj) (impl : Option (List String)) (rows : Option (List Nat
     | some xs =>
       let t := o.tab
       if !t.nonneg || !validBreaks t.T o.bps then "-" else
-      if t.E.any (fun x => x > 0.0 && x < 1e-100) && xs.any (fun x => x.isNaN || x.isInf) then "-" else
       match exactPost t o.bps with
       | none => "-"
       | some ex =>
@@ -324,7 +341,9 @@ def siteVerdict (o : Obj) (impl : Option (List String)) (rows : Option (List Nat
         let want := (ex.zip es).map (fun (r, e) => ((List.range t.n).zip r).foldl (fun a (j, q) => a + q * e j) (0 : Rat))
         let want' := match rows with | none => want | some is => is.filterMap (fun i => want[i]?)
         if want'.length != xs.length then "FAIL:parse" else
-        if (want'.zip xs).all (fun (q, x) => close x (ratToFloat q) || Float.abs (x - ratToFloat q) ≤ 1e-300) then "ok" else "FAIL:site_likelihood"
+        if (want'.zip xs).all (fun (q, x) => close x (ratToFloat q) || Float.abs (x - ratToFloat q) ≤ 1e-300) then "ok"
+        else if !o.isLog && t.extreme then "FAIL:rescaled_underflow"
+        else "FAIL:site_likelihood"
 
 /-- cross-algorithm agreement on the implementation's answers (objects holding the same
 non-negative tables and break points), and the exact path sum -/
@@ -336,7 +355,7 @@ def agreeVerdict (os : List (Option Obj)) (impl : Option (List String)) : String
     let prs := (os.zip ans).filterMap (fun (o, a) => match o with | some o => some (o, a) | none => none)
     match prs with
     | [] => "-"
-    | (o0, a0) :: _ =>
+    | (o0, _) :: _ =>
       let same := prs.all (fun (o, _) => o.tab.n == o0.tab.n && o.tab.P.toList == o0.tab.P.toList && o.tab.F.toList == o0.tab.F.toList
         && o.tab.E.toList == o0.tab.E.toList && o.bps == o0.bps && !o.stale)
       if !same || !o0.tab.nonneg then "-" else
@@ -344,14 +363,18 @@ def agreeVerdict (os : List (Option Obj)) (impl : Option (List String)) : String
       | none => "FAIL:parse"
       | some xs =>
         let x0 := xs.head!
-        let zeroLik := match exactLik o0.tab o0.bps with | some q => q == 0 | none => false
-        if !zeroLik && !rangeOk o0.tab o0.bps then "-"
-        else if !(xs.all (fun x => close x x0 && close x0 x)) then "FAIL:cross_algo"
+        -- every answer against the exact path sum (each class on its own terms), then against each other
+        let vs := (prs.zip xs).map (fun ((o, _), x) => llCheck o.tab o.bps x o.isLog)
+        match vs.find? (·.startsWith "FAIL") with
+        | some f => f
+        | none =>
+        if !(xs.all (fun x => close x x0 && close x0 x)) then
+          (if underflowed o0.tab o0.bps then "FAIL:rescaled_underflow" else "FAIL:cross_algo")
         else
           let hs := prs.map (fun (o, a) => histCheck o [a] (specOf o .logLik))
           match hs.find? (·.startsWith "FAIL") with
           | some f => f
-          | none => match implFloat? a0 with | some x => llCheck o0.tab o0.bps x | none => "FAIL:parse"
+          | none => if vs.any (· == "ok") then "ok" else "-"
 
 def parse2 (s : String) : Option (Nat × Nat) :=
   match s.splitOn "_" with
@@ -379,6 +402,17 @@ def stationary (t : DTables) : Bool :=
 def DTables.positive (t : DTables) : Bool :=
   t.finite && (t.P.all (· > 0)) && (t.F.all (· > 0)) && (t.E.all (· > 0))
 
+/-- the recorded double-range findings of the derivative recursions: the rescaled class divides by the square /
+cube of every scale factor (NaN or ±inf once one is below 1e-140 / 1e-95); the log-sum class divides by every
+emission probability and takes the logarithm of every transition / equilibrium entry (NaN when one is 0 or tiny) -/
+def derivRangeClause (o : Obj) (order : Nat) : Option String :=
+  let t := o.tab
+  match o.core with
+  | .resc _ => if !rangeOkAt (if order == 1 then 1e-140 else 1e-95) t o.bps then some "FAIL:rescaled_derivative_range" else none
+  | .log _ => if !t.positive || !t.E.all (· ≥ (if order == 1 then 1e-140 else 1e-95)) then some "FAIL:logsum_derivative_range" else none
+  | .low _ => none
+
+/-- verdict on a derivative (order 1 or 2) with respect to `var` answered by the implementation -/
 def derivVerdict (o : Obj) (impl : List String) (var : String) (order : Nat) : String :=
   match impl with
   | [a] =>
@@ -386,18 +420,34 @@ def derivVerdict (o : Obj) (impl : List String) (var : String) (order : Nat) : S
     | none => "FAIL:parse"
     | some x =>
       let t := o.tab
-      -- the rescaled recursions need a stationary equilibrium vector (see `stationary`); the log-sum ones
-      -- (not modelled, judged on the implementation only) divide by every emission probability
-      -- double range of the log-sum recursions: they divide by every emission probability (squared at order 2)
-      let eLo : Float := if order == 1 then 1e-140 else 1e-95
-      let applicable := match o.core with
-        | .resc _ => true
-        | .log _ => t.positive && t.E.all (· ≥ eLo)
-        | .low _ => false
-      if o.stale || !t.nonneg || !applicable || !validBreaks t.T o.bps || !rangeOk t o.bps then "-" else
+      match o.core with
+      | .low _ => "-"
+      | _ =>
+      if o.stale || !t.nonneg || !validBreaks t.T o.bps then "-" else
       if !var.startsWith t.pre then "-" else
       let var := (var.drop t.pre.length).toString
-      if !var.startsWith "e" then "-" else
+      if !var.startsWith "e" then
+        -- a parameter of the transition table: the classes differentiate the emissions only and answer -0 without
+        -- raising (recorded finding C13-derivative-transition-parameter).  Judged for table-backed `p<i>_<j>` / `f<k>`
+        -- with a positive value on which the exact likelihood depends (all coefficients are non-negative: the
+        -- derivative is then strictly positive); parameters of the built-in models: no exact reference here
+        if o.tm.isSome || order != 1 then "-" else
+        let body := (var.drop 1).toString
+        let idx : Option (Bool × Nat) :=
+          if var.startsWith "p" then (match parse2 body with | some (i, j) => if i < t.n && j < t.n then some (true, i * t.n + j) else none | none => none)
+          else if var.startsWith "f" then (match body.toNat? with | some k => if k < t.n then some (false, k) else none | none => none)
+          else none
+        match idx with
+        | none => "-"
+        | some (isP, k) =>
+          let cur := if isP then t.P[k]! else t.F[k]!
+          let t' : DTables := if isP then { t with P := t.P.modify k (· + 1.0) } else { t with F := t.F.modify k (· + 1.0) }
+          match exactLik t o.bps, exactLik t' o.bps with
+          | some l0, some l1 =>
+            if l0 == 0 || !(cur > 0.0) || l1 == l0 then "-"
+            else if x == 0.0 then "FAIL:derivative_transition_parameter" else "ok"
+          | _, _ => "-"
+      else
       match parse2 (var.drop 1).toString with
       | none => "-"
       | some (s, j) =>
@@ -405,11 +455,12 @@ def derivVerdict (o : Obj) (impl : List String) (var : String) (order : Nat) : S
         | none => "-"
         | some (d1, d2) =>
           let want := ratToFloat (if order == 1 then d1 else d2)
-          -- double range: the recursions square the first derivative and divide by the square (first
-          -- order) or the cube (second order) of every scale factor
-          if !(Float.abs (ratToFloat d1) < 1e140) || !rangeOkAt (if order == 1 then 1e-140 else 1e-95) t o.bps then "-" else
+          -- the answer itself must be a double: the second derivative is the square of the first
+          if !(Float.abs (ratToFloat d1) < 1e150) then "-" else
           if Float.abs (x - want) ≤ 1e-7 * (if Float.abs want > 1.0 then Float.abs want else 1.0) then "ok"
-          else if order == 1 then "FAIL:derivative1" else "FAIL:derivative2"
+          else match derivRangeClause o order with
+            | some c => c
+            | none => if order == 1 then "FAIL:derivative1" else "FAIL:derivative2"
   | _ => "FAIL:parse"
 
 /-- verdict on a per-site derivative term (both classes): the term of site `i` is the derivative of
@@ -425,11 +476,7 @@ def derivSiteVerdict (o : Obj) (impl : List String) (site : Nat) (second : Bool)
       let (var, var2) := match o.core with | .resc r => (r.dVar, r.d2Var) | .log g => (g.dVar, g.d2Var) | .low _ => ("", "")
       -- the second-order accessor of the rescaled class mixes the arrays of the two variables when they differ
       if second && var != var2 then "-" else
-      let applicable := match o.core with
-        | .resc _ => true
-        | .log _ => t.positive && t.E.all (· ≥ 1e-95)
-        | .low _ => false
-      if !t.nonneg || !applicable || !validBreaks t.T o.bps || !rangeOkAt 1e-95 t o.bps then "-" else
+      if !t.nonneg || !validBreaks t.T o.bps then "-" else
       if !var.startsWith t.pre then "-" else
       let var := (var.drop t.pre.length).toString
       if !var.startsWith "e" then "-" else
@@ -458,8 +505,11 @@ def derivSiteVerdict (o : Obj) (impl : List String) (site : Nat) (second : Bool)
             -- the log-sum class subtracts two prefix derivatives that are each O(|d log L|): absolute tolerance
             let scale := Float.abs (ratToFloat c1) + Float.abs (ratToFloat p1) + 1.0
             let tol := if second then 1e-7 * scale * scale else 1e-7 * scale
+            if !(scale < 1e150) then "-" else
             if Float.abs (x - want) ≤ tol then "ok"
-            else if second then "FAIL:derivative2_site" else "FAIL:derivative1_site"
+            else match derivRangeClause o 2 with
+              | some c => c
+              | none => if second then "FAIL:derivative2_site" else "FAIL:derivative1_site"
           | _, _ => "-"
   | _ => "FAIL:parse"
 
